@@ -332,6 +332,9 @@ def _find_caller(st: State):
 def call_method(I, recv: Any, name: str, pos: list, kw: dict, st: State) -> Iterator[tuple[State, Any]]:
     from verif.pyvc import lib
 
+    if isinstance(recv, SObj) and recv.cls in ("sha256", "bytes", "datetime"):
+        yield from lib.method(I, recv, name, pos, kw, st)
+        return
     if isinstance(recv, (SObj, SymObj)):
         cls = recv.cls
         infos = I.pkg.class_by_name.get(cls, [])
